@@ -75,6 +75,16 @@ theorem broker_check_sound (allowed presumed pattern : Str) (nonSupported : Bool
     isMember (new (if nonSupported then presumed else pattern)) host = true :=
   superset_sound _ _ _ hc hh
 
+/-- **The broker check, exactly**: a poll passes `CheckProxyRelayPattern` iff the proxy's (declared or presumed)
+pattern accepts every hostname the broker's allowed pattern accepts — neither too lenient (the property) nor
+rejecting a proxy that does cover the allowed pattern. -/
+theorem broker_check_iff (allowed presumed pattern : Str) (nonSupported : Bool) :
+    brokerCheck allowed presumed pattern nonSupported = true ↔
+      ∀ host, isMember (new allowed) host = true →
+        isMember (new (if nonSupported then presumed else pattern)) host = true := by
+  unfold brokerCheck
+  exact superset_iff _ _
+
 /-- A poll failing the check is exactly a poll whose pattern is not judged a superset. -/
 theorem broker_rejects_iff (allowed presumed pattern : Str) (nonSupported : Bool) :
     brokerCheck allowed presumed pattern nonSupported = false ↔
